@@ -112,6 +112,26 @@ def degenerate_case(case):
     e.finalize()
     if r.random() < 0.3:
         e.finalize()
+    if r.random() < 0.35:
+        # a set-up the library refuses (an engine object created with an option the library does not know), cleaned up with
+        # finalize() as a try / finally would do, before and after a valid run: nothing may be freed twice or used after free
+        import ctypes
+        from strengths.librdengine import LibRDEngine
+        bogus = LibRDEngine(ctypes.CDLL(engines.install()), option=r.choice(["rk4", "", "Euler", "gillespie "]),
+                            description="description", requires_molecules=r.random() < 0.5)
+        script2 = st.RDScript(system=system, t_sample=[0, 0.02], time_step=0.01, rng_seed=3)
+        for _ in range(r.randint(1, 2)):
+            try:
+                bogus.setup(script2)
+            except Exception:
+                pass
+            bogus.finalize()
+        e2 = engines.get(kind_)
+        e2.setup(script2)
+        e2.iterate_n(5)
+        e2.get_output()
+        e2.finalize()
+        bogus.finalize()
     return {"key": chash([case["idx"], kind_, pol, isp]), "engine": kind_, "policy": pol, "isp": isp, "cells": n, "nsamples": out.nsamples()}
 
 
